@@ -1,6 +1,6 @@
 SPECIFICATION Spec
 CONSTANTS
- NW = 2  BS = 2  Total = 3  Chunk = 1
+ NW = 2  BS = 2  Total = 3  Chunk = 1  HdrSz = 1  TailSz = 2
  Timeout = FALSE  Spurious = FALSE  MayFail = TRUE
  Gives = {0, 1, 100}  Spaces = {0, 1, 100}
  FlushActs = {}
